@@ -257,7 +257,7 @@ def np_zeros(interp, args, kwargs):
 def np_full(interp, args, kwargs):
     shape, val = args[0], args[1]
     if isinstance(val, Opaque) and val.tag == "nan":
-        val = Opaque("nan")
+        val = NanNum(z3.RealVal(0), z3.BoolVal(True))
     if isinstance(shape, Tup) and len(shape.items) == 2:
         r, c = shape.items
         rr, cc = conc(r.z), conc(c.z)
@@ -750,3 +750,35 @@ def np_norm(interp, args, kwargs):
         ctx.assume(z3.And(t >= 0, t * t == sq))
         return Num(t, False)
     raise Unsupported("np.linalg.norm form")
+
+
+def _mat_binop(interp, self: Mat, other, op, swapped=False):
+    ctx = interp.ctx
+    a = self.buf.fn
+    f = (lambda x, y: ops.scalar_binop(ctx, op, y, x, guard=False)) if swapped else (lambda x, y: ops.scalar_binop(ctx, op, x, y, guard=False))
+    if isinstance(other, (Num, Bool)):
+        if op in ("/", "//", "%") and not swapped:
+            ops._div_guard(ctx, as_real(to_num(other)), "division")
+        return Mat(self.rows, self.cols, lambda i, j: f(a(i, j), other), elem="real" if op == "/" or not (isinstance(other, Num) and other.is_int) else self.elem)
+    if isinstance(other, Vec):
+        v = snapshot(other)
+        ax = getattr(other, "newaxis", None)
+        if ax == "col":
+            if not ctx.branch(zint(other.length) == zint(self.rows), "mat-colvec-broadcast"):
+                raise PyRaise("ValueError", "operands could not be broadcast together")
+            return Mat(self.rows, self.cols, lambda i, j: f(a(i, j), v(i)), elem="real" if other.elem == "real" or self.elem == "real" else self.elem)
+        if not ctx.branch(zint(other.length) == zint(self.cols), "mat-rowvec-broadcast"):
+            raise PyRaise("ValueError", "operands could not be broadcast together")
+        return Mat(self.rows, self.cols, lambda i, j: f(a(i, j), v(j)), elem="real" if other.elem == "real" or self.elem == "real" else self.elem)
+    if isinstance(other, Mat):
+        for x, y in ((self.rows, other.rows), (self.cols, other.cols)):
+            if not ctx.branch(zint(x) == zint(y), "mat-mat-shape"):
+                raise PyRaise("ValueError", "operands could not be broadcast together")
+        b = other.buf.fn
+        return Mat(self.rows, self.cols, lambda i, j: f(a(i, j), b(i, j)), elem="real" if "real" in (self.elem, other.elem) or op == "/" else self.elem)
+    raise Unsupported(f"matrix {op} {type(other).__name__}")
+
+
+for _op in ("+", "-", "*", "/"):
+    METHODS[("mat", "@op:" + _op)] = (lambda op: lambda interp, self, args, kwargs: _mat_binop(interp, self, args[0], op))(_op)
+    METHODS[("mat", "@rop:" + _op)] = (lambda op: lambda interp, self, args, kwargs: _mat_binop(interp, self, args[0], op, swapped=True))(_op)
